@@ -29,13 +29,13 @@ theorem step_refines_unary (s : Sys) (sp : Spec.SSys) (k : Nat) (op : Op) (hb : 
   rw [hd] at hv1
   simp only at hv1
   have hdcap := hinv.get hd
-  have hstep : (if s.ty = .ipv then step1Ipv s.cap op d else step1 s.cap op d) = .ok (Spec.apply1 s.cap op d)
+  have hstep : (if s.ty = .ipv then step1Ipv s.cap op d else step1 s.cap s.kind op d) = .ok (Spec.apply1 s.cap op d)
       ∧ (Spec.apply1 s.cap op d).1.length ≤ s.cap := by
     by_cases ht : s.ty = .ipv
     · rw [if_pos ht]; rw [ht] at hs
       exact step1Ipv_refines op d hinv.1 hdcap (supports_unaryIpv hs hb) hv1
     · rw [if_neg ht]
-      exact step1_refines op d hinv.1 hdcap (supports_unarySv ht hs hb) hv1
+      exact step1_refines s.kind op d hinv.1 hdcap (supports_unarySv ht hs hb) hv1
   refine ⟨s.setObj k (Spec.apply1 s.cap op d).1, (Spec.apply1 s.cap op d).2, ?_,
     hinv.setObj k _ hstep.2, rfl, rfl, rfl, by simp [Sys.setObj], ?_, ?_⟩
   · rw [step_unary s k op hb, hs, rd_of_get hd]
